@@ -922,8 +922,35 @@ func scanRangeIdx(c *core.Ctx) []ob {
 								return true
 							}
 							switch v := z.(type) {
+							case *ast.AssignStmt:
+								// built from a literal list of k polynomials: degree k-1
+								if len(v.Lhs) >= 1 && len(v.Rhs) == 1 {
+									ast.Inspect(v.Rhs[0], func(w ast.Node) bool {
+										if cl, ok := w.(*ast.CompositeLit); ok {
+											if sl, ok := info.TypeOf(cl).Underlying().(*types.Slice); ok && polyish(sl.Elem()) && len(cl.Elts) > 0 {
+												pinned[name(v.Lhs[0])] = fmt.Sprint(len(cl.Elts) - 1)
+												return false
+											}
+										}
+										return true
+									})
+								}
 							case *ast.IfStmt:
-								if be, ok := unparen(v.Cond).(*ast.BinaryExpr); ok && be.Op == token.NEQ && leavesWithError(v.Body) {
+								// `A.Degree() != k || B.Degree() != k' -> error`: every disjunct that leaves pins its operand
+								var disj func(e ast.Expr)
+								disj = func(e ast.Expr) {
+									be, ok := unparen(e).(*ast.BinaryExpr)
+									if !ok {
+										return
+									}
+									if be.Op == token.LOR {
+										disj(be.X)
+										disj(be.Y)
+										return
+									}
+									if be.Op != token.NEQ {
+										return
+									}
 									if call, ok := unparen(be.X).(*ast.CallExpr); ok {
 										if s, ok := unparen(call.Fun).(*ast.SelectorExpr); ok && s.Sel.Name == "Degree" {
 											if lit, ok := unparen(be.Y).(*ast.BasicLit); ok {
@@ -932,10 +959,21 @@ func scanRangeIdx(c *core.Ctx) []ob {
 										}
 									}
 								}
+								if leavesWithError(v.Body) {
+									disj(v.Cond)
+								}
 							case *ast.CallExpr:
 								if s, ok := unparen(v.Fun).(*ast.SelectorExpr); ok && s.Sel.Name == "Resize" && len(v.Args) >= 1 {
 									if lit, ok := unparen(v.Args[0]).(*ast.BasicLit); ok {
 										pinned[strings.TrimSuffix(name(s.X), ".El()")] = lit.Value
+									}
+									// resized to the degree of an element whose degree is pinned
+									if dc, ok := unparen(v.Args[0]).(*ast.CallExpr); ok {
+										if ds, ok := unparen(dc.Fun).(*ast.SelectorExpr); ok && ds.Sel.Name == "Degree" {
+											if k, ok := pinned[name(ds.X)]; ok {
+												pinned[strings.TrimSuffix(name(s.X), ".El()")] = k
+											}
+										}
 									}
 								}
 								if depth < 1 {
